@@ -143,3 +143,14 @@ CASES += [
         ("quantarhei/qm/hilbertspace/operators.py", "        self.data\n        dd,SS = numpy.linalg.eigh(self._data)", "        with energy_units(\"int\"):\n            dd,SS = numpy.linalg.eigh(self.data)", 1),
         ("quantarhei/qm/hilbertspace/operators.py", "import numpy\n", "import numpy\nfrom ...core.managers import energy_units\n", 1)]},
 ]
+
+CASES += [
+    {"name": "Foerster propagation Hamiltonian created under the current units (the repaired defect)", "kind": "mutant", "rule": "C05-U14", "edits": [
+        ("quantarhei/builders/opensystem.py", "                with energy_units(\"int\"):\n                    ham_0 = Hamiltonian(data=dat)\n                ham_0.set_rwa(ham.rwa_indices)\n\n            else:",
+         "                ham_0 = Hamiltonian(data=dat)\n                ham_0.set_rwa(ham.rwa_indices)\n\n            else:", 1)]},
+    {"name": "interpolated spectrum axis created under the current units (the repaired defect)", "kind": "mutant", "rule": "C05-U14", "edits": [
+        ("quantarhei/spectroscopy/absbase.py", "        with energy_units(\"int\"):\n            waxis = FrequencyAxis(omin, length, step)", "        waxis = FrequencyAxis(omin, length, step)", 1)]},
+    {"name": "axis created from points converted back to the current units", "kind": "twin", "edits": [
+        ("quantarhei/spectroscopy/absbase.py", "        with energy_units(\"int\"):\n            waxis = FrequencyAxis(omin, length, step)",
+         "        with energy_units(\"int\"):\n            w0 = omin\n            waxis = FrequencyAxis(w0, length, step)", 1)]},
+]
